@@ -432,9 +432,12 @@ impl<'a> LiveEvents<'a> {
                     return Ok(Some(ev));
                 }
 
-                Event::MappingStart(anchor_id, _tag) => {
+                Event::MappingStart(anchor_id, tag) => {
+                    let tag_s = SfTag::from_optional_cow(&tag);
                     let ev = Ev::MapStart {
                         anchor: anchor_id,
+                        tag: tag_s,
+                        raw_tag: tag.as_ref().map(|t| Cow::Owned(t.to_string())),
                         location,
                     };
                     self.bump_depth_on_start();
